@@ -73,6 +73,7 @@ struct Knobs {
     int keep_alive = 60;
     bool conformant = true;
     int hostile_count_pct = 0, hostile_rc_pct = 0;   // SUBACK/UNSUBACK with wrong count; acks with inadmissible reason codes
+    int authenticator_pct = 0;   // the client uses enhanced authentication (broker runs 0-1 challenge rounds)
     int invalid_pub_pct = 0;     // publishes that fail validation (must be refused at once and leave no trace in quota / ids)
     int rm_change_pct = 0;       // the broker announces a different Receive Maximum (or none) on later connections
 };
@@ -114,6 +115,7 @@ Scenario gen_mix(vu::Rng& rng, const Knobs& k, const std::string& family) {
     sc.ccfg.client_id = "c" + std::to_string(rng.below(1000));
     int rm = rng.pick(k.rm_choices);
     if (rm > 0) sc.bcfg.caps.receive_maximum = (uint16_t)rm;
+    if (k.authenticator_pct && (int)rng.below(100) < k.authenticator_pct) { sc.ccfg.use_authenticator = true; sc.ccfg.auth_method = "SIM-AUTH"; sc.broker_auth_rounds = (int)rng.below(2); }
     if (k.rm_change_pct && (int)rng.below(100) < k.rm_change_pct) {
         int n = (int)rng.range(2, 4);
         for (int i = 0; i < n; ++i) sc.bcfg.receive_maximum_script.push_back(rng.pick(std::vector<int>{0, 0, 1, 2, 3, 8}));
@@ -249,8 +251,8 @@ Scenario reference_workload(int which, uint64_t seed) {
 
 Knobs knobs_for(const std::string& family) {
     Knobs k;
-    if (family == "c01-mix") { k.inbound = 3; k.qos_w[0] = 0; k.qos_w[1] = 1; k.qos_w[2] = 1; }
-    else if (family == "c02-mix") { k.faults_max = 3; k.bad_attempts_max = 3; }
+    if (family == "c01-mix") { k.inbound = 3; k.qos_w[0] = 0; k.qos_w[1] = 1; k.qos_w[2] = 1; k.authenticator_pct = 10; }
+    else if (family == "c02-mix") { k.faults_max = 3; k.bad_attempts_max = 3; k.authenticator_pct = 10; }
     else if (family == "c03-mix") { k.qos_w[0] = 1; k.qos_w[1] = 1; k.qos_w[2] = 4; k.faults_max = 3; k.rm_choices = {0, 1, 2, 3}; }
     else if (family == "c04-mix") { k.pubs_max = 4; k.inbound = 8; k.faults_max = 3; k.lose_session_pct = 25; k.subs = 1; }
     else if (family == "c05-mix") { k.suffix = 15 * SEC; }
@@ -259,7 +261,7 @@ Knobs knobs_for(const std::string& family) {
     else if (family == "c07-mix") { k.pubs_min = 4; k.pubs_max = 30; k.burst_pct = 80; k.rm_choices = {1, 1, 2, 3, 4, 8, 65535}; k.qos_w[0] = 1; k.faults_max = 2; k.ack_delay_max = 200 * MS; k.inbound = 1; k.subs = 0; k.invalid_pub_pct = 8; k.rm_change_pct = 30; }
     else if (family == "c08-mix") { k.pubs_min = 5; k.pubs_max = 40; k.subs = 2; k.unsubs = 2; k.faults_max = 2; k.inbound = 3; }
     else if (family == "c11-mix") { k.keep_alive = 2; k.faults_max = 3; k.bad_attempts_max = 3; k.pubs_max = 8; k.ack_delay_max = 500 * MS; k.suffix = 60 * SEC; }
-    else if (family == "c13-mix") { k.pubs_max = 4; k.subs = 2; k.faults_max = 3; k.lose_session_pct = 60; k.inbound = 2; }
+    else if (family == "c13-mix") { k.pubs_max = 4; k.subs = 2; k.faults_max = 3; k.lose_session_pct = 60; k.inbound = 2; k.authenticator_pct = 25; }
     else if (family == "c14-mix") { k.pubs_max = 2; k.subs = 3; k.unsubs = 2; k.faults_max = 2; }
     else if (family == "c14-hostile") { k.pubs_max = 2; k.subs = 3; k.unsubs = 2; k.faults_max = 1; k.inbound = 0; k.hostile_count_pct = 35; k.hostile_rc_pct = 15; }
     else if (family == "c01-hostile-rc") { k.inbound = 0; k.qos_w[0] = 0; k.qos_w[1] = 1; k.qos_w[2] = 1; k.subs = 0; k.faults_max = 1; k.hostile_rc_pct = 20; }
@@ -503,6 +505,11 @@ void run_c10(Judge& j, uint64_t n) {
         { ref::Props cp = g.props(ref::CONNECT, -1, {0x15, 0x16, 0x27}); l2r::from_ref(cp, c.connect_props); }
         c.use_authenticator = rng.chance(1, 5);
         if (c.use_authenticator) { c.auth_method = "SIM-" + g.text(rng.range(1, 6)); sc.broker_auth_rounds = (int)rng.below(3); }
+        // what the broker answers must not leak into later CONNECTs: Server Keep Alive, Receive Maximum, assigned limits
+        if (rng.chance(1, 2)) sc.bcfg.caps.server_keep_alive = rng.pick(std::vector<uint16_t>{0, 1, 7, 30, 1200});
+        if (rng.chance(1, 3)) sc.bcfg.caps.receive_maximum = (uint16_t)rng.range(1, 20);
+        if (rng.chance(1, 4)) sc.bcfg.caps.maximum_packet_size = (uint32_t)rng.range(200, 5000);
+        if (rng.chance(1, 4)) sc.bcfg.caps.topic_alias_maximum = (uint16_t)rng.range(0, 10);
         // broker list
         int nh = (int)rng.range(1, 4);
         std::string list;
@@ -522,7 +529,8 @@ void run_c10(Judge& j, uint64_t n) {
         // a host list that only contains unresolvable names never connects: that is fine, the rotation is still judged
         Action r; r.kind = Action::run; sc.script.push_back(r);
         Action p; p.kind = Action::publish; p.at = 10 * MS; p.qos = 1; p.topic = "c"; p.payload = "x"; sc.script.push_back(p);
-        if (rng.chance(1, 2)) { Fault f; f.kind = Fault::reset_b2c; f.conn_ordinal = (int)rng.below(2); f.at = rng.range(0, 20); sc.faults.push_back(f); }
+        if (rng.chance(2, 3)) { Fault f; f.kind = Fault::reset_b2c; f.conn_ordinal = 0; f.at = rng.range(8, 40); sc.faults.push_back(f); }
+        if (rng.chance(1, 3)) { Fault f; f.kind = Fault::reset_c2b; f.conn_ordinal = 1; f.at = rng.range(30, 80); sc.faults.push_back(f); }
         sc.end = 90 * SEC;
         vu::set_case(sc.family + " index=" + std::to_string(i));
         auto ex = execute(sc);
